@@ -24,6 +24,10 @@ func init() {
 func runC14(c *Ctx) {
 	p := c.P
 	s := p.Selectors()
+	{
+		roots := p.reachableFrom(s.apiMethod("UpdateProject"), s.apiMethod("UpdateProcess"), s.apiMethod("ReloadProject"))
+		s.checkErrorsNotSwallowed(c, "errors-not-swallowed", func(f *ssa.Function) bool { return roots[f] && inPkgs("app", "loader")(f) }, "a failed update would be reported as applied")
+	}
 
 	// the comparison: method of *ProcessConfig with a *ProcessConfig parameter returning bool
 	var cmpFns []*ssa.Function
